@@ -252,7 +252,6 @@ class LinCombFxp:
             return self
         
         res = self * self ** (other - 1)
-        res.lc.value %= backend.get_modulus()
 
         return res
     
